@@ -424,3 +424,28 @@ Proof.
         match goal with |- context [p_open ?a ?b ?c] => destruct (p_open a b c) as [p1 n] end; apply IH; exact A2. }
     specialize (G (s_redirs st) sh AO). rewrite EPRE in G. discriminate.
 Qed.
+
+(* a lone builtin with a file target that cannot be opened (d4ac685): the result is an error, captured or not
+   (run_pipeline decides the capture-pipe cleanup by cl.is_single_and_builtin(), NOT by the value
+   run_single_program returns on this path, and so does the model: the cleanup is `done` in every arm) *)
+Lemma preopen_fails : forall openable rs p, allopen openable rs = false -> snd (builtin_preopen openable rs p) = false.
+Proof.
+  intros openable rs p H. destruct (snd (builtin_preopen openable rs p)) eqn:E; [|reflexivity].
+  rewrite (preopen_allopen openable rs p E) in H. discriminate.
+Qed.
+
+Theorem builtin_unopenable_error : forall v fail_at openable pl sh st,
+  v_bunop v = true -> p_stages pl = [st] -> s_kind st = KBuiltin ->
+  allopen openable (s_redirs st) = false ->
+  let r := run_pipeline v fail_at openable pl sh in
+  res_error r = true /\ res_kids r = [] /\ res_sinks r = [].
+Proof.
+  intros v fail_at openable pl sh st VU ES EK AO. cbv zeta.
+  unfold run_pipeline. rewrite ES. cbn [length mk_pipes]. cbv zeta.
+  assert (SB : is_single_builtin pl = true) by (unfold is_single_builtin; rewrite ES, EK; reflexivity).
+  rewrite SB. rewrite VU.
+  destruct (mk_capture v fail_at (p_capture pl) 0 [] sh) as [[[q capo] cape] failed].
+  destruct failed; [cbn; auto|].
+  pose proof (preopen_fails openable (s_redirs st) q AO) as PF.
+  destruct (builtin_preopen openable (s_redirs st) q) as [sh1 okb]. cbn [snd] in PF. subst okb. cbn. auto.
+Qed.
